@@ -261,6 +261,9 @@ def is_tz_aware_with_millisecond_precision(dt: datetime.datetime) -> bool:
         dt.tzinfo is not None
         and dt.tzinfo.utcoffset(dt) is not None
         and dt.microsecond % 1000 == 0
+        # UTC offsets can have microsecond resolution, the represented instant needs
+        # to be a whole number of milliseconds as well.
+        and dt.tzinfo.utcoffset(dt).microseconds % 1000 == 0
         and dt.timestamp() >= 0
     )
 
